@@ -69,10 +69,14 @@ def gen_case(rng):
     if r < 0.4:
         data = None
     elif r < 0.7:
-        n = rng.choice([0, 0, 1, 2, rng.randint(0, 40)])
+        n = rng.choice([0, 0, 1, 2, rng.randint(0, 40), rng.randint(0, 40),
+                        rng.randint(1400, 1472)])
         data = ["bytes", bytes(rng.getrandbits(8) for _ in range(n)).hex()]
     else:
-        data = ["int", rng.choice([0, 0, 1, 4, rng.randint(0, 40)])]
+        # up to the largest payload a frame can carry
+        data = ["int", rng.choice([0, 0, 1, 4, rng.randint(0, 40),
+                                   rng.randint(0, 40), 1458, 1459, 1460,
+                                   1472, rng.randint(1400, 1472)])]
     if not fmts and trailing is None and data is None:
         data = ["int", 2]
     return dict(fmts=fmts, vals=[[v.hex() if isinstance(v, bytes) else v
